@@ -25,7 +25,7 @@ func init() {
 			if tier == "quick" {
 				return 3200
 			}
-			return 32000
+			return 16000
 		},
 		Run:      runC13,
 		Required: []string{"pairs.std", "pairs.fast", "pairs.recurrent", "pairs.modular", "history.ended_in_error", "history.changed_outputs", "evaluate_twice"},
